@@ -27,7 +27,7 @@ CREATE = ['bin', 'hex', 'bytes', 'bytearray', 'memoryview', 'memoryview_ro', 'me
           'set_uint', 'set_intle', 'set_uie', 'set_se', 'set_hex', 'set_float', 'set_bytes', 'pack_uintle', 'pack_ue', 'build_uint', 'build_uie']
 EXTERNAL = {'bytearray', 'memoryview', 'memoryview_ro', 'memoryview_slice_ro', 'bytes_kw_bytearray', 'bytes_kw_memoryview_ro', 'array', 'bitarray', 'bitarray_kw', 'bitarray_little'}
 DERIVE = ['construct', 'bits_kw', 'copycopy', 'dotcopy', 'slice', 'add', 'invert', 'mul', 'and', 'andself', 'orself', 'xor', 'lshift', 'join', 'pack', 'readbits',
-          'cut', 'split', 'unpack', 'dotbits', 'underscore_copy', 'radd_str', 'lshift_all', 'rshift_all', 'radd_lit_empty', 'add_empty', 'radd_empty']
+          'cut', 'split', 'unpack', 'dotbits', 'underscore_copy', 'radd_str', 'lshift_all', 'rshift_all', 'radd_lit_empty', 'add_empty', 'radd_empty', 'radd_lit_short', 'radd_lit_short', 'radd_lit_long', 'add_lit']
 MUTATE = ['append', 'prepend', 'invert_all', 'set0', 'clear', 'reverse', 'overwrite', 'insert', 'imul', 'setitem', 'ilshift', 'del', 'replace', 'byteswap', 'bits_assign',
           'clear', 'append_obj', 'prepend_obj', 'iadd_obj', 'insert_obj', 'overwrite_obj', 'clear_then_prepend_obj', 'clear_then_append_obj']
 MUT_FN = {  # the same mutation on the str model / as a Coq function on bits
@@ -179,6 +179,13 @@ def run_impl(c):
                     elif how == 'radd_lit_empty':
                         lit = lits.get(st['src'])
                         o = (lit + C()) if lit is not None else s[1:]             # a cached literal + an empty mutable/immutable object
+                    elif how in ('radd_lit_short', 'radd_lit_long', 'add_lit'):
+                        # the literal an object was made from (a string-cache entry) as one operand of +, the other operand shorter / longer than it
+                        lit = lits.get(st['src'])
+                        if lit is None: o = s[1:]
+                        elif how == 'radd_lit_short': o = lit + C(bin='1')
+                        elif how == 'radd_lit_long': o = lit + C(bin='10' * (len(s) + 1))
+                        else: o = C(bin='1') + lit
                     info['same_object'] = o is s
                     objs.append(o); return None
                 if op == 'mutate':
